@@ -11,6 +11,7 @@ import (
 	"sync"
 	"testing"
 
+	"early.verif"
 	otp "github.com/ja7ad/otp"
 	"pgregory.net/rapid"
 
@@ -88,6 +89,11 @@ var randMu sync.Mutex
 func withReader(r *stream, f func()) {
 	randMu.Lock()
 	defer randMu.Unlock()
+	// crypto/rand.Reader has been a switchable stand-in since before the library was initialised (package early.verif), so
+	// a library that copied the variable at start-up reads the recorded stream too; the variable itself is set as well, for
+	// the case that something replaced it in the meantime
+	restore := early.Use(r)
+	defer restore()
 	old := rand.Reader
 	rand.Reader = r
 	defer func() { rand.Reader = old }()
